@@ -45,25 +45,54 @@ def check_expr_fields(rep, facts, rule):
                                                                '{} stores a label-dependent expression in `{}`; resolve_immediates only bakes the field `imm`, so it would be '
                                                                'evaluated elsewhere (or never) against non-final labels'.format(cls, attr), line=node.lineno))
     # resolve_immediates dispatches on 'imm'
-    fn = facts.funcs['resolve_immediates']
-    tests = [n for n in ast.walk(fn) if isinstance(n, ast.Compare) and isinstance(n.left, ast.Constant) and n.left.value == 'imm']
-    rep.check(bool(tests), rule, 'resolve_immediates selects items by the field name imm',
-              lambda: Finding(rule, 'resolve_immediates', fn, 'resolve_immediates no longer selects items carrying an `imm` field', line=fn.lineno))
+    fn = facts.funcs.get('resolve_immediates')
+    if fn is None:
+        raise AnalysisError('anchor vanished: pass resolve_immediates')
+    # how the pass picks the items it bakes: a membership test of a field name in vars(item), hasattr / getattr with a field name
+    selected = set()
+    for n in ast.walk(fn):
+        if isinstance(n, ast.Compare) and len(n.ops) == 1 and isinstance(n.ops[0], (ast.In, ast.NotIn)) and isinstance(n.left, ast.Constant) and isinstance(n.left.value, str):
+            selected.add(n.left.value)
+        if isinstance(n, ast.Call) and isinstance(n.func, ast.Name) and n.func.id in ('hasattr', 'getattr') and len(n.args) >= 2 \
+                and isinstance(n.args[1], ast.Constant) and isinstance(n.args[1].value, str) and (n.func.id == 'hasattr' or n.args[1].value == 'imm'):
+            selected.add(n.args[1].value)      # (getattr(item, <other field>, default) reads a field, it does not select items)
+    if not selected:
+        raise AnalysisError('resolve_immediates: how the pass selects the items that carry an expression is not understood')
+    rep.check('imm' in selected, rule, 'resolve_immediates selects items by the field name imm',
+              lambda: Finding(rule, 'resolve_immediates', fn, 'resolve_immediates selects items by the field(s) {} instead of `imm`, the field every expression-carrying class uses'.format(
+                  sorted(selected)), line=fn.lineno))
 
 
 def check_envs(rep, facts, rule):
     """R8.5: every evaluation environment that contains labels is ChainMap(constants, labels) (constants first)."""
+    from ..layout import table_param
     n = 0
     for fname, fn in facts.funcs.items():
+        lname = table_param(facts, fname, 'labels') or 'labels'
+        cname = table_param(facts, fname, 'constants') or 'constants'
         for node in ast.walk(fn):
+            order = None
             if isinstance(node, ast.Call) and dotted(node.func) in ('ChainMap', 'collections.ChainMap'):
                 args = [unparse(a) for a in node.args]
-                if 'labels' in args:
-                    n += 1
-                    rep.check(args == ['constants', 'labels'], rule, '{}: ChainMap(constants, labels)'.format(fname),
-                              lambda node=node, fname=fname, args=args: Finding(rule, fname, node,
-                                                                              'evaluation environment ChainMap({}) gives names a different precedence than every other site'.format(', '.join(args)),
-                                                                              line=node.lineno))
+                if lname not in args:
+                    continue
+                text = 'ChainMap({})'.format(', '.join(args))
+                order = 'constants-first' if args == [cname, lname] else 'labels-first' if args == [lname, cname] else None
+            elif isinstance(node, ast.Dict) and node.keys and all(k is None for k in node.keys) and any(unparse(v) == lname for v in node.values):
+                # {**labels, **constants}: a merged copy, later entries win
+                args = [unparse(v) for v in node.values]
+                text = unparse(node)
+                order = 'constants-first' if args == [lname, cname] else 'labels-first' if args == [cname, lname] else None
+            else:
+                continue
+            n += 1
+            if order is None:
+                rep.undecided('{}: the precedence of names in the evaluation environment {} is not understood'.format(fname, text[:60]))
+                continue
+            rep.check(order == 'constants-first', rule, '{}: {}'.format(fname, text),
+                      lambda node=node, fname=fname, text=text: Finding(rule, fname, node,
+                                                                      'evaluation environment {} gives names a different precedence than every other site'.format(text),
+                                                                      line=node.lineno))
     rep.count('label environments', n)
 
 
@@ -87,7 +116,8 @@ def check_peeks(rep, facts, rule):
                 env = got
         from ..predlift import env_kind
         kind = env_kind(env, None)
-        uses_labels = IS.contains(env, ('name', 'labels')) or kind == 'labels' or kind is None or env[0] == 'name'
+        lp = LB.labels_param(facts, top) or 'labels'
+        uses_labels = IS.contains(env, ('name', 'labels')) or IS.contains(env, ('name', lp)) or kind == 'labels' or kind is None or env[0] == 'name'
         if kind is not None and kind != 'labels' and LB.param_holds_labels(facts, top, kind[1]) is False:
             uses_labels = False      # evaluated against a table assemble fills with constants only
         if not uses_labels:
@@ -129,26 +159,27 @@ def run(repo, tier):
                  'base + label, lookup in the same environment; every expression-carrying item field is the one the baking site reads.')
     rep.trusted_base = ['CPython ast', 'bbverif.pathwalk', 'layout invariant L1-L3 (decided under C03/C09 on the same run engine)']
     rep.not_decided = ['staleness of PEEK decisions (a value used only to choose an expansion is not "encoded in the output")']
-    eff = LB.check_bake_after_mut(rep, facts, 'R8.order')
-    LB.check_L4(rep, facts, 'R8.final')
-    check_peeks(rep, facts, 'R8.peek')
-    check_expr_fields(rep, facts, 'R8.field')
-    check_envs(rep, facts, 'R8.env')
-    from .. import labelrules as _LB
-    _LB.check_live_env(rep, facts, 'R8.env.live')
+    # every rule is attempted: a no-verdict in one of them is deferred, so it cannot mask a violation another one establishes
+    rep.attempt(LB.check_bake_after_mut, rep, facts, 'R8.order')
+    rep.attempt(LB.check_L4, rep, facts, 'R8.final')
+    rep.attempt(check_peeks, rep, facts, 'R8.peek')
+    rep.attempt(check_expr_fields, rep, facts, 'R8.field')
+    rep.attempt(check_envs, rep, facts, 'R8.env')
+    rep.attempt(LB.check_live_env, rep, facts, 'R8.env.live')
     # the label table the values are read from is the one the invariant speaks about
-    LB.check_L5(rep, facts, 'R8.identity')
-    # L2/L3 for the passes between label creation and baking (so that "final offset" means byte offset)
+    rep.attempt(LB.check_L5, rep, facts, 'R8.identity')
+    # L2/L3 for every pass: a label equals the byte offset in the output only if size() is what each item finally emits
+    movers = rep.attempt(LB.label_writing_passes, facts)
     for compress in (False, True):
-        for name, node, inc, out in LR.class_flow(facts, compress):
-            if True:
-                # every pass: a label equals the byte offset in the output only if size() is what each item finally emits
-                LR.check_conservation(rep, LR.pass_analysis(facts, name, frozenset(inc)), 'R8.layout', name in LR.LABEL_PASSES_EXPECTED)
-    LB.check_L1(rep, facts, 'R8.layout.establish')
+        for name, node, inc, out in rep.attempt(LR.class_flow, facts, compress) or []:
+            def conserve(name=name, inc=inc):
+                LR.check_conservation(rep, LR.pass_analysis(facts, name, frozenset(inc)), 'R8.layout', movers is None or name in movers)
+            rep.attempt(conserve)
+    rep.attempt(LB.check_L1, rep, facts, 'R8.layout.establish')
     # %offset(L) is L's offset minus the offset of the item that contains it - except for the jalr half of an auipc pair, and only
     # for that: the displacement of the evaluation point is tied to the is_auipc_jump flag at every site
     from .. import immsites as _IS
-    _IS.check_auipc(rep, facts, 'R8.auipc-adjust', 'R8.auipc-sibling')
+    rep.attempt(_IS.check_auipc, rep, facts, 'R8.auipc-adjust', 'R8.auipc-sibling')
     rep.floor('baking evaluation sites', 1)
     rep.floor('early evaluation sites', 1)
     rep.floor('expression-carrying fields', 14)
